@@ -376,7 +376,7 @@ func datagramFor(v6 bool, kind string, x uint32, idx int) []byte {
 			return reply6(x, 'A', idx)
 		case "rej":
 			return reply6(x, 'R', idx)
-		case "ix", "ih", "ih0", "ih3", "ih5", "ihx":
+		case "ix", "ih", "ih0", "ih3", "ih5", "ihx", "ib0", "ib8":
 			return reply6(x^0x00a5a5, 'A', idx)
 		case "ig":
 			return []byte{1, 2} // truncated header
@@ -402,6 +402,17 @@ func datagramFor(v6 bool, kind string, x uint32, idx int) []byte {
 			return reply4(x, 'A', idx, dhcpv4.OpcodeBootReply, clOtherHW)
 		case "ih0": // hlen 0: empty chaddr
 			return reply4(x, 'A', idx, dhcpv4.OpcodeBootReply, net.HardwareAddr{})
+		case "ib0", "ib8":
+			// an InfiniBand reply (RFC 4390: htype 32, hlen 0, chaddr zeroed) and one with an
+			// 8-byte address: not for this Ethernet client's hardware address either
+			// (seeded change C10-12: htype 32 + hlen 0 exempted from the chaddr filter)
+			hw := net.HardwareAddr{}
+			if kind == "ib8" {
+				hw = net.HardwareAddr{2, 0, 0x5e, 0x10, 0x20, 0x30, 0, 0}
+			}
+			b := reply4(x, 'A', idx, dhcpv4.OpcodeBootReply, hw)
+			b[1] = 32
+			return b
 		case "ih3": // a proper prefix of the client's address (the OUI)
 			return reply4(x, 'A', idx, dhcpv4.OpcodeBootReply, clHW[:3])
 		case "ih5":
